@@ -17,8 +17,6 @@ func Operate3[A any, B any, C any, R any](ac <-chan A, bc <-chan B, cc <-chan C,
 
 	VerifStage("Operate3", 0, []any{ac, bc, cc}, []any{rc})
 	go func() {
-		defer close(rc)
-
 		for {
 			an, ok := <-ac
 			if !ok {
@@ -38,8 +36,10 @@ func Operate3[A any, B any, C any, R any](ac <-chan A, bc <-chan B, cc <-chan C,
 			rc <- o(an, bn, cn)
 		}
 
-		Drain(ac)
-		Drain(bc)
+		close(rc)
+
+		go Drain(ac)
+		go Drain(bc)
 		Drain(cc)
 	}()
 
